@@ -378,13 +378,14 @@ func c08CheckEmitted(t *core.T, l c08Layout, sess *saml.Session, body []byte, dr
 		fail("short-key", "content key of %d bytes", len(cek))
 	}
 	if drawn != nil {
-		if !bytes.Contains(drawn, cek) {
-			fail("content-key-not-from-random-source", "the content-encryption key was not drawn from xmlenc.RandReader during this response (%d bytes drawn)", len(drawn))
+		// provenance from xmlenc.RandReader is recorded as an outcome only: the statement asks for fresh keys and IVs,
+		// which the pairwise-distinct check over consecutive responses decides
+		if bytes.Contains(drawn, cek) && bytes.Contains(drawn, iv) {
+			t.Outcome("encrypted/key-and-iv-from-RandReader")
+		} else {
+			t.Outcome("encrypted/key-or-iv-not-from-RandReader")
 		}
-		if !bytes.Contains(drawn, iv) {
-			fail("iv-not-from-random-source", "the IV was not drawn from xmlenc.RandReader during this response (%d bytes drawn)", len(drawn))
-		}
-		if bytes.Equal(cek, iv) {
+		if bytes.Equal(cek, iv[:min(len(iv), len(cek))]) {
 			fail("iv-equals-key", "IV equals the content key")
 		}
 	}
